@@ -2,7 +2,7 @@
    decodes to an equivalent value (C08, and the wire leg of C01 / C13), by induction
    over arbitrarily nested values. *)
 From Coq Require Import Ascii String ZArith List Lia Bool Arith ZifyBool Permutation.
-From GoCose Require Import Bytes Cbor CborProofs Res GoVal Fx Headers Enc TbsProofs EncProofs EncCanon.
+From GoCose Require Import Bytes Cbor CborProofs Res GoVal Fx Headers Enc Dec TbsProofs EncProofs EncCanon.
 From GoCose.Gen Require Import Generated.
 Import ListNotations.
 Open Scope Z_scope.
@@ -80,7 +80,7 @@ Proof. reflexivity. Qed.
 
 Definition encdec (g : gv) : Prop :=
   forall b, simple g = true -> enc g = Acc b ->
-  exists w d, b = ser w /\ good w /\ dec true w = Acc d /\ rel g d.
+  exists w d, b = ser w /\ good w /\ notags w = true /\ dec true w = Acc d /\ rel g d.
 
 Lemma simple_all_forall l :
   (fix all (l : list gv) : bool := match l with [] => true | y :: r => simple y && all r end) l = true ->
@@ -95,7 +95,7 @@ Qed.
 Lemma seq_encdec (f : list gv -> res bytes) :
   (forall l, f l = match l with [] => Acc [] | y :: r => let* a := enc y in let* b := f r in Acc (a ++ b) end) ->
   forall l bs, Forall encdec l -> Forall (fun y => simple y = true) l -> f l = Acc bs ->
-  exists ws ds, bs = flat_map ser ws /\ length ws = length l /\ Forall good ws /\
+  exists ws ds, bs = flat_map ser ws /\ length ws = length l /\ Forall good ws /\ forallb notags ws = true /\
                 dec_list ws = Acc ds /\ Forall2 rel l ds.
 Proof.
   intros Hf. induction l as [|y l IH]; intros bs He Hp H; rewrite Hf in H.
@@ -103,9 +103,9 @@ Proof.
   - inversion He as [|? ? Hy He']; subst. inversion Hp as [|? ? Py Hp']; subst.
     destruct (enc y) as [a| | |] eqn:Ey; cbn [bind] in H; try discriminate.
     destruct (f l) as [b| | |] eqn:El; cbn [bind] in H; try discriminate.
-    inversion H; subst. destruct (Hy a Py Ey) as (w & d & -> & Gw & Dw & Rw).
-    destruct (IH b He' Hp' eq_refl) as (ws & ds & -> & Hl & Gs & Ds & Rs).
-    exists (w :: ws), (d :: ds). cbn [flat_map length]. repeat split; auto.
+    inversion H; subst. destruct (Hy a Py Ey) as (w & d & -> & Gw & Nw & Dw & Rw).
+    destruct (IH b He' Hp' eq_refl) as (ws & ds & -> & Hl & Gs & Ns & Ds & Rs).
+    exists (w :: ws), (d :: ds). cbn [flat_map length forallb]. rewrite Nw, Ns. repeat split; auto.
     unfold dec_list in *. rewrite Dw, Ds. reflexivity.
 Qed.
 
@@ -121,7 +121,8 @@ Definition kwire (k : gv) : wire :=
 Definition dkey (k : gv) : gv := match k with GInt _ n => GInt KInt64 n | _ => k end.
 
 Lemma key_facts k a : key_ok k = true -> simple k = true -> enc k = Acc a ->
-  a = ser (kwire k) /\ good (kwire k) /\ dec true (kwire k) = Acc (dkey k) /\ as_map_key (dkey k) = Acc (dkey k) /\ rel k (dkey k).
+  a = ser (kwire k) /\ good (kwire k) /\ dec true (kwire k) = Acc (dkey k) /\ as_map_key (dkey k) = Acc (dkey k) /\ rel k (dkey k) /\
+  notags (kwire k) = true.
 Proof.
   intros Hk Hs He. destruct k; try discriminate; cbn [simple] in Hs; cbn [enc] in He; injection He as <-.
   - (* integer *)
@@ -129,15 +130,15 @@ Proof.
     cbn [kwire dkey]. unfold enc_int. destruct (0 <=? n) eqn:E.
     + split; [reflexivity|]. split; [split; cbn [wf canonical]; [apply minw_fits; unfold two64; lia|apply width_eqb_refl]|].
       split; [cbn [dec]; unfold maxint64; replace (n <=? 9223372036854775807) with true by lia; reflexivity|].
-      split; [reflexivity|constructor].
+      split; [reflexivity|]. split; [constructor|reflexivity].
     + split; [reflexivity|]. split; [split; cbn [wf canonical]; [apply minw_fits; unfold two64; lia|apply width_eqb_refl]|].
       split; [cbn [dec]; unfold maxint64; replace (-1 - n <=? 9223372036854775807) with true by lia;
               replace (-1 - (-1 - n)) with n by lia; reflexivity|].
-      split; [reflexivity|constructor].
+      split; [reflexivity|]. split; [constructor|reflexivity].
   - (* text *)
     apply andb_true_iff in Hs as [Hs Hu]. apply andb_true_iff in Hs as [Ho Hl].
     cbn [kwire dkey]. split; [reflexivity|]. split; [split; [apply ttstr_wf; split; auto; lia|cbn; apply width_eqb_refl]|].
-    split; [cbn [dec ttstr]; rewrite Hu; reflexivity|]. split; [reflexivity|constructor].
+    split; [cbn [dec ttstr]; rewrite Hu; reflexivity|]. split; [reflexivity|]. split; [constructor|reflexivity].
 Qed.
 
 Lemma dkey_inj k1 k2 : key_ok k1 = true -> key_ok k2 = true -> key_eqb (dkey k1) (dkey k2) = true -> kwire k1 = kwire k2.
@@ -150,7 +151,7 @@ Qed.
 Definition pairQ (p : gv * gv) (kv : bytes * bytes) : Prop :=
   key_ok (fst p) = true /\ fst kv = ser (kwire (fst p)) /\ good (kwire (fst p)) /\
   dec true (kwire (fst p)) = Acc (dkey (fst p)) /\
-  exists wv dv, snd kv = ser wv /\ good wv /\ dec true wv = Acc dv /\ rel (snd p) dv.
+  exists wv dv, snd kv = ser wv /\ good wv /\ notags wv = true /\ dec true wv = Acc dv /\ rel (snd p) dv.
 
 Lemma pairs_encdec (f : list gv -> res (list (bytes * bytes))) :
   (forall l, f l = match l with
@@ -169,20 +170,42 @@ Proof.
     destruct (enc k) as [a| | |] eqn:Eka; cbn [bind] in H; try discriminate.
     destruct (enc v) as [b| | |] eqn:Eva; cbn [bind] in H; try discriminate.
     destruct (f r) as [c| | |] eqn:Er; cbn [bind] in H; try discriminate.
-    inversion H; subst. destruct (key_facts k a Kk Pk Eka) as (-> & Gk & Dk & _ & _).
-    destruct (Ev b Pv Eva) as (wv & dv & -> & Gv & Dv & Rv).
+    inversion H; subst. destruct (key_facts k a Kk Pk Eka) as (-> & Gk & Dk & _ & _ & _).
+    destruct (Ev b Pv Eva) as (wv & dv & -> & Gv & Nv & Dv & Rv).
     cbn [pairs]. constructor; [|apply IH; auto].
     split; [exact Kk|]. cbn [fst snd]. split; [reflexivity|]. split; [exact Gk|]. split; [exact Dk|]. exists wv, dv. auto.
 Qed.
 
 Definition pair_rel (p q : gv * gv) : Prop := rel (fst p) (fst q) /\ rel (snd p) (snd q).
 
+Fixpoint gvals (l : list gv) : list gv :=
+  match l with _ :: v :: r => v :: gvals r | _ => [] end.
+
+Lemma zip_keys_vals : forall dl, Nat.even (length dl) = true -> zip_flat (gkeys dl) (gvals dl) = dl.
+Proof.
+  fix IH 1. intros [|k [|v r]] He; [reflexivity|discriminate|]. cbn [gkeys gvals zip_flat]. rewrite (IH r He). reflexivity.
+Qed.
+
+(* the header decoder reads a label exactly as the generic decoder reads a key *)
+Lemma label_of_kwire k : key_ok k = true -> dec true (kwire k) = Acc (dkey k) -> label_of_wire (kwire k) = Acc (dkey k).
+Proof.
+  intros Hk D. destruct k; try discriminate; cbn [kwire dkey] in *.
+  - destruct (0 <=? n); cbn [label_of_wire strip_sd dec] in *.
+    + destruct (n <=? maxint64); [exact D|discriminate].
+    + destruct (-1 - n <=? maxint64); [exact D|discriminate].
+  - cbn [ttstr label_of_wire strip_sd dec] in *. exact D.
+Qed.
+
+Lemma notags_plain w : notags w = true -> strip_sd w = w /\ builtin_tag_ok w = true.
+Proof. destruct w; cbn; try discriminate; auto. Qed.
+
 (* a strictly sorted list of encoded entries is the flat serialisation of a sorted map that decodes entry by entry *)
 Lemma sorted_pairs_dec : forall s lp,
   Forall2 pairQ lp s -> ssorted s ->
   exists tl dl, flat_kv s = flat_map ser tl /\ length tl = (2 * length s)%nat /\ Forall good tl /\ keys_sorted tl = true /\
-                dec_pairs tl = Acc dl /\ Forall2 pair_rel lp (pairs dl) /\ Nat.even (length dl) = true /\
+                forallb notags tl = true /\ dec_pairs tl = Acc dl /\ Forall2 pair_rel lp (pairs dl) /\ Nat.even (length dl) = true /\
                 gkeys dl = map (fun p => dkey (fst p)) lp /\
+                labels_pass tl = Acc (gkeys dl) /\ values_pass tl = Acc (gvals dl) /\
                 match s, tl with
                 | kv :: _, k :: _ => fst kv = ser k
                 | [], [] => True
@@ -191,8 +214,8 @@ Lemma sorted_pairs_dec : forall s lp,
 Proof.
   induction s as [|kv s IH]; intros lp HF Hs.
   - inversion HF; subst. exists [], []. cbn. repeat split; auto; constructor.
-  - inversion HF as [|p ? lp' ? (Kk & Ek & Gk & Dk & wv & dv & Ev & Gv & Dv & Rv) HF']; subst.
-    destruct (IH lp' HF' (ssorted_tail _ _ Hs)) as (tl & dl & El & Ll & Gl & Kl & Dl & Rl & Evn & Kd & Hd).
+  - inversion HF as [|p ? lp' ? (Kk & Ek & Gk & Dk & wv & dv & Ev & Gv & Nv & Dv & Rv) HF']; subst.
+    destruct (IH lp' HF' (ssorted_tail _ _ Hs)) as (tl & dl & El & Ll & Gl & Kl & Nl & Dl & Rl & Evn & Kd & LP & VP & Hd).
     exists (kwire (fst p) :: wv :: tl), (dkey (fst p) :: dv :: dl).
     unfold flat_kv, bytes in *. cbn [flat_map].
     split; [rewrite Ek, Ev, El, <- app_assoc; reflexivity|]. split; [cbn [length]; lia|].
@@ -204,11 +227,16 @@ Proof.
         change (keys_sorted (kwire (fst p) :: wv :: k2 :: v2 :: tl')) with (bytes_ltb (ser (kwire (fst p))) (ser k2) && keys_sorted (k2 :: v2 :: tl')).
         rewrite Kl, andb_true_r. inversion Hs; subst. unfold klt in *. rewrite <- Ek, <- Hd. assumption. }
     split.
+    { cbn [forallb]. rewrite Nv, Nl. destruct (fst p); try discriminate; cbn [kwire notags]; [destruct (0 <=? n)|]; reflexivity. }
+    split.
     { unfold dec_pairs in *. rewrite Dk. cbn [bind].
       replace (as_map_key (dkey (fst p))) with (Acc (dkey (fst p))) by (destruct (fst p); try discriminate; reflexivity).
       rewrite Dv, Dl. reflexivity. }
     split; [cbn [pairs]; constructor; auto; split; cbn [fst snd]; auto; destruct (fst p); try discriminate; constructor|].
-    split; [cbn [length]; exact Evn|]. split; [cbn [gkeys map]; rewrite Kd; reflexivity|exact Ek].
+    split; [cbn [length]; exact Evn|]. split; [cbn [gkeys map]; rewrite Kd; reflexivity|].
+    split.
+    { cbn [labels_pass gkeys]. rewrite (label_of_kwire _ Kk Dk). destruct (notags_plain wv Nv) as [-> ->]. rewrite LP. reflexivity. }
+    split; [cbn [values_pass gvals]; rewrite Dv, VP; reflexivity|exact Ek].
 Qed.
 
 Lemma key_in_ex k l : key_in k l = true -> exists k', In k' l /\ key_eqb k k' = true.
@@ -245,17 +273,54 @@ Proof. induction 1; constructor; auto. Qed.
 Lemma forall2_length {A B} (R : A -> B -> Prop) l l' : Forall2 R l l' -> length l = length l'.
 Proof. induction 1; cbn; auto. Qed.
 
+(* the map case, with everything the header decoders need *)
+Lemma map_encdec l out :
+  Forall encdec l -> simple (GMap l) = true -> enc (GMap l) = Acc out ->
+  exists ww tl dl lp,
+    out = ser (WMap ww tl) /\ good (WMap ww tl) /\ forallb notags tl = true /\
+    dec_pairs tl = Acc dl /\ keys_nodup (gkeys dl) = true /\
+    Permutation (pairs l) lp /\ Forall2 pair_rel lp (pairs dl) /\ Nat.even (length dl) = true /\
+    gkeys dl = map (fun p => dkey (fst p)) lp /\
+    labels_pass tl = Acc (gkeys dl) /\ values_pass tl = Acc (gvals dl).
+Proof.
+  intros H Hp He. cbn [simple] in Hp.
+  apply andb_true_iff in Hp as [Hp Hall]. apply andb_true_iff in Hp as [Hlen Hk]. apply simple_all_forall in Hall.
+  cbn [enc] in He.
+  match type of He with (let* kvs := ?F l in _) = _ => destruct (F l) as [kvs| | |] eqn:EL; cbn [bind] in He; try discriminate;
+    pose proof (pairs_encdec F ltac:(intros [|k [|v r]]; reflexivity) l kvs H Hall Hk EL) as FQ end.
+  apply enc_map_canonical in He as (s & -> & Ss & Ps).
+  destruct (Permutation_Forall2 (Permutation_sym Ps) (forall2_flip _ _ _ FQ)) as (lp & Plp & FQ').
+  apply forall2_flip in FQ'. cbn beta in FQ'.
+  destruct (sorted_pairs_dec s lp FQ' Ss) as (tl & dl & El & Ll & Gl & Kl & Nl & Dl & Rl & Evn & Kd & LP & VP & _).
+  exists (minw (len kvs)), tl, dl, lp.
+  assert (Lt : len tl / 2 = len kvs).
+  { unfold len. rewrite Ll, (Permutation_length Ps). lia. }
+  destruct (forall_good_forallb tl Gl) as [F1 F2].
+  split; [cbn [ser]; rewrite Lt, El; reflexivity|].
+  assert (Hkv : 0 <= len kvs < two64).
+  { pose proof (len_nonneg kvs). split; auto. pose proof (forall2_length _ _ _ FQ) as HL.
+    assert (length (pairs l) <= length l)%nat.
+    { clear. revert l. fix IH 1. intros [|k [|v r]]; cbn; try lia. specialize (IH r). lia. }
+    unfold len in *. lia. }
+  split; [split; cbn|].
+  - rewrite Lt, F1, andb_true_r. rewrite minw_fits by auto. rewrite andb_true_r.
+    rewrite Ll. apply Nat.even_spec. exists (length s). lia.
+  - rewrite Lt, width_eqb_refl, F2, Kl. reflexivity.
+  - split; [exact Nl|]. split; [exact Dl|]. split; [rewrite Kd; apply (sorted_keys_nodup lp s FQ' Ss)|].
+    repeat (split; auto).
+Qed.
+
 (* ---------- the theorem ---------- *)
 Theorem enc_dec : forall g, encdec g.
 Proof.
   induction g using gv_ind'; unfold encdec; intros out Hp He; cbn [simple] in Hp; try discriminate.
   - (* GInt *)
-    destruct (key_facts (GInt k n) out eq_refl Hp He) as (-> & G & D & _ & R). exists (kwire (GInt k n)), (dkey (GInt k n)). auto.
+    destruct (key_facts (GInt k n) out eq_refl Hp He) as (-> & G & D & _ & R & N). exists (kwire (GInt k n)), (dkey (GInt k n)). auto.
   - (* GStr *)
-    destruct (key_facts (GStr s) out eq_refl Hp He) as (-> & G & D & _ & R). exists (kwire (GStr s)), (dkey (GStr s)). auto.
+    destruct (key_facts (GStr s) out eq_refl Hp He) as (-> & G & D & _ & R & N). exists (kwire (GStr s)), (dkey (GStr s)). auto.
   - (* GBytes *) cbn [enc] in He. inversion He; subst. exists (tbstr b), (GBytes b). split; [reflexivity|].
     apply andb_true_iff in Hp as [H1 H2]. split; [split; [apply tbstr_wf; split; auto; lia|cbn; apply width_eqb_refl]|].
-    split; [reflexivity|constructor].
+    split; [reflexivity|]. split; [reflexivity|constructor].
   - (* GNilBytes *) cbn [enc] in He. inversion He; subst. exists (WSim W0 22), GNil. repeat split; try reflexivity; constructor.
   - (* GBool *) cbn [enc] in He. inversion He; subst.
     destruct b; [exists (WSim W0 21), (GBool true)|exists (WSim W0 20), (GBool false)]; repeat split; try reflexivity; constructor.
@@ -263,46 +328,38 @@ Proof.
   - (* GArr *) apply andb_true_iff in Hp as [Hlen Hall]. apply simple_all_forall in Hall.
     cbn [enc] in He.
     match type of He with (let* bs := ?F l in _) = _ => destruct (F l) as [bs| | |] eqn:EL; cbn [bind] in He; try discriminate;
-      destruct (seq_encdec F ltac:(intros [|y r]; reflexivity) l bs H Hall EL) as (ws & ds & -> & Hl & Gs & Ds & Rs) end.
+      destruct (seq_encdec F ltac:(intros [|y r]; reflexivity) l bs H Hall EL) as (ws & ds & -> & Hl & Gs & Ns & Ds & Rs) end.
     inversion He; subst. exists (WArr (minw (len ws)) ws), (GArr ds).
     assert (Lw : len ws = len l) by (unfold len; rewrite Hl; reflexivity).
     destruct (forall_good_forallb ws Gs) as [F1 F2].
     split; [cbn [ser]; unfold enc_head; rewrite Lw; reflexivity|].
     split; [split; cbn; [rewrite F1, andb_true_r; apply minw_fits; pose proof (len_nonneg ws); lia|rewrite width_eqb_refl, F2; reflexivity]|].
+    split; [cbn [notags]; clear -Ns; induction ws as [|w ws IH]; [reflexivity|]; cbn [forallb] in Ns; apply andb_true_iff in Ns as [A B]; rewrite A; apply IH; exact B|].
     split; [rewrite dec_arr, Ds; reflexivity|constructor; exact Rs].
-  - (* GMap *) apply andb_true_iff in Hp as [Hp Hall]. apply andb_true_iff in Hp as [Hlen Hk]. apply simple_all_forall in Hall.
-    cbn [enc] in He.
-    match type of He with (let* kvs := ?F l in _) = _ => destruct (F l) as [kvs| | |] eqn:EL; cbn [bind] in He; try discriminate;
-      pose proof (pairs_encdec F ltac:(intros [|k [|v r]]; reflexivity) l kvs H Hall Hk EL) as FQ end.
-    apply enc_map_canonical in He as (s & -> & Ss & Ps).
-    destruct (Permutation_Forall2 (Permutation_sym Ps) (forall2_flip _ _ _ FQ)) as (lp & Plp & FQ').
-    apply forall2_flip in FQ'. cbn beta in FQ'.
-    destruct (sorted_pairs_dec s lp FQ' Ss) as (tl & dl & El & Ll & Gl & Kl & Dl & Rl & Evn & Kd & _).
-    exists (WMap (minw (len kvs)) tl), (GMap dl).
-    assert (Lt : len tl / 2 = len kvs).
-    { unfold len. rewrite Ll, (Permutation_length Ps). lia. }
-    destruct (forall_good_forallb tl Gl) as [F1 F2].
-    split; [cbn [ser]; rewrite Lt, El; reflexivity|].
-    assert (Hkv : 0 <= len kvs < two64).
-    { pose proof (len_nonneg kvs). split; auto. pose proof (forall2_length _ _ _ FQ) as HL.
-      assert (length (pairs l) <= length l)%nat.
-      { clear. revert l. fix IH 1. intros [|k [|v r]]; cbn; try lia. specialize (IH r). lia. }
-      unfold len in *. lia. }
-    split; [split; cbn|].
-    + rewrite Lt, F1, andb_true_r. rewrite minw_fits by auto. rewrite andb_true_r.
-      rewrite Ll. apply Nat.even_spec. exists (length s). lia.
-    + rewrite Lt, width_eqb_refl, F2, Kl. reflexivity.
-    + split.
-      * rewrite dec_map, Dl. cbn [bind]. rewrite Kd, (sorted_keys_nodup lp s FQ' Ss). reflexivity.
-      * econstructor; eauto.
+  - (* GMap *)
+    destruct (map_encdec l out H Hp He) as (ww & tl & dl & lp & -> & G & Nl & Dl & Nd & Plp & Rl & Evn & Kd & _ & _).
+    exists (WMap ww tl), (GMap dl). split; [reflexivity|]. split; [exact G|].
+    split; [cbn [notags]; clear -Nl; induction tl as [|w tl IH]; [reflexivity|]; cbn [forallb] in Nl; apply andb_true_iff in Nl as [A B]; rewrite A; apply IH; exact B|].
+    split; [rewrite dec_map, Dl; cbn [bind]; rewrite Nd; reflexivity|econstructor; eauto].
 Qed.
+
+(* maps, with what the header decoders use *)
+Theorem enc_map_dec l out :
+  simple (GMap l) = true -> enc (GMap l) = Acc out ->
+  exists ww tl dl lp,
+    out = ser (WMap ww tl) /\ good (WMap ww tl) /\ forallb notags tl = true /\
+    dec_pairs tl = Acc dl /\ keys_nodup (gkeys dl) = true /\
+    Permutation (pairs l) lp /\ Forall2 pair_rel lp (pairs dl) /\ Nat.even (length dl) = true /\
+    gkeys dl = map (fun p => dkey (fst p)) lp /\
+    labels_pass tl = Acc (gkeys dl) /\ values_pass tl = Acc (gvals dl).
+Proof. intros Hs He. apply map_encdec; auto. apply Forall_forall. intros x _. apply enc_dec. Qed.
 
 (* the output of the encoder, as bytes, is accepted by the library decoder *)
 Corollary enc_dec_bytes g b :
   simple g = true -> enc g = Acc b ->
   exists w d, parse_full b = Some w /\ canonical w = true /\ dec true w = Acc d /\ rel g d.
 Proof.
-  intros Hs He. destruct (enc_dec g b Hs He) as (w & d & -> & [Hw Hc] & D & R).
+  intros Hs He. destruct (enc_dec g b Hs He) as (w & d & -> & [Hw Hc] & _ & D & R).
   exists w, d. split; [apply parse_full_ser; exact Hw|]. auto.
 Qed.
 
